@@ -50,7 +50,7 @@ class Spec:
 
 
 def core_q(name, defines, L=12, budget=300, tiers=('quick', 'thorough'), unwind=None, extra_defs=(), desc=''):
-    d = ['L=%d' % L, 'VF_FREE_NOOP', 'VF_CAP=%d' % (L + 8)] + list(defines) + list(extra_defs)
+    d = ['L=%d' % L, 'VF_FREE_NOOP', 'VF_CAP=%d' % (L + 8), 'VJ_DEPTH=1'] + list(defines) + list(extra_defs)
     return Query(name, 'core_verify.c', CORE_UNITS, defines=d, unwind=unwind or (L + 3), checks='verdict',
                  budget=budget, tiers=tiers, desc=desc,
                  bounds={'L': L, 'VJ_MAXM': 4, 'VJ_SLEN': 8, 'PV_MACLEN': 3, 'unwind': unwind or (L + 3)})
@@ -148,4 +148,48 @@ class C09(Spec):
                 Query('C09.gate.verify', 'gate.c', GATE_UNITS, defines=['SIDE_VERIFY', 'VF_FREE_NOOP'], unwind=14, bounds=b)]
 
 
-PROPS.update({'C09': C09(), 'C04': C04(), 'C02': C02(), 'C03': C03(), 'C06': C06(), 'C14': C14()})
+def tworun_q(name, defines, L=12, budget=600, tiers=('quick', 'thorough'), mac=3):
+    d = ['L=%d' % L, 'VF_FREE_NOOP', 'VF_CAP=%d' % (L + 8), 'PV_TAPE', 'PV_MACLEN=%d' % mac, 'VJ_DEPTH=1'] + list(defines)
+    return Query(name, 'core_tworun.c', CORE_UNITS, defines=d, unwind=L + 3, checks='verdict', budget=budget, tiers=tiers,
+                 bounds={'L': L, 'VJ_MAXM': 4, 'VJ_SLEN': 8, 'PV_MACLEN': 3, 'runs compared': 2})
+
+
+class C13(Spec):
+    functions = CORE_FUNCS + ['jwt_checker_error_clear', 'jwt_checker_claim_set', 'jwt_checker_time_leeway']
+
+    def queries(self, tier, bld):
+        q = tworun_q('C13.checker.L8', ['PROP_C13'], L=8, mac=1)
+        q.unwind = 14
+        return [q]
+
+
+class C19(Spec):
+    functions = CORE_FUNCS + ['jwt_claim_set', 'jwt_claim_del', 'jwt_header_set', 'jwt_header_del', '__setter', '__deleter']
+
+    def queries(self, tier, bld):
+        qs = [core_q('C19.cb.ops1.L12', ['PROP_C19', 'CB_MUTATES', 'CB_OPS=1', 'PV_TAPE', 'CLOCK_RANGE'], L=12, budget=600),
+              core_q('C19.cb.ops2.L12', ['PROP_C19', 'CB_MUTATES', 'CB_OPS=2', 'PV_TAPE', 'CLOCK_RANGE'], L=12, budget=1800, tiers=('thorough',)),
+              core_q('C19.cb.admit.L12', ['PROP_C19_ADMIT'], L=12)]
+        return qs
+
+
+CODEC_UNITS = ['libjwt/jwt.c', 'libjwt/jwt-memory.c', 'libjwt/base64.c']
+
+
+class C11(Spec):
+    functions = ['jwt_base64uri_encode', 'jwt_base64uri_decode', 'base64_encode', 'base64_decode', 'jwt_malloc', '__jwt_freemem']
+
+    def queries(self, tier, bld):
+        qs = []
+        for (n, m, t, b) in ((12, 16, ('quick', 'thorough'), 300), (48, 64, ('thorough',), 1800)):
+            capn = ((n + 2) // 3) * 4 + 2
+            qs.append(Query('C11.encode.N%d' % n, 'codec.c', CODEC_UNITS, models=['alloc', 'jansson_model', 'env'],
+                            defines=['SIDE_ENCODE', 'N=%d' % n, 'VF_EXACT_END', 'VF_CAP=%d' % (capn + 4)], unwind=capn + 4,
+                            checks='memsafe-noconv', budget=b, tiers=t, bounds={'N': n}))
+            qs.append(Query('C11.decode.M%d' % m, 'codec.c', CODEC_UNITS, models=['alloc', 'jansson_model', 'env'],
+                            defines=['SIDE_DECODE', 'M=%d' % m, 'VF_EXACT_END', 'VF_CAP=%d' % (m + 8)], unwind=m + 6,
+                            checks='memsafe-noconv', budget=b, tiers=t, bounds={'M': m}))
+        return qs
+
+
+PROPS.update({'C11': C11(), 'C13': C13(), 'C19': C19(), 'C09': C09(), 'C04': C04(), 'C02': C02(), 'C03': C03(), 'C06': C06(), 'C14': C14()})
